@@ -157,6 +157,7 @@ pub fn check(c: &Case, ctx: &mut Ctx) -> Result<(), Failure> {
 
 fn field() -> BoxedStrategy<f64> {
     prop_oneof![
+        1 => (0usize..3).prop_map(|i| [3e306, 1.5e307, -8e306][i]),
         6 => 0.5f64..500.0,
         2 => -100.0f64..100.0,
         1 => (-6.0f64..9.0).prop_map(|e| 10f64.powf(e)),
@@ -190,6 +191,11 @@ fn strategy(maxlen: usize) -> BoxedStrategy<Case> {
                 3 => vec(valid_bar(), lenr.clone()),
                 1 => bar_stream(false, 1, (3 * n + 10).min(maxlen)).prop_map(|s| s.bars),
                 2 => vec(field(), lenr.clone()).prop_map(|v| v.into_iter().map(|x| RawBar { o: x, h: x, l: x, c: x, v: x.abs() }).collect()),
+                // one-price bars on two or three neighbouring doubles (a window spanning exactly one ulp)
+                1 => (vec(0u8..3, lenr.clone()), 0.5f64..500.0).prop_map(|(v, x0)| v.into_iter().map(|j| {
+                    let x = f64::from_bits(x0.to_bits() + (j % if x0 > 250.0 { 3 } else { 2 }) as u64);
+                    RawBar { o: x, h: x, l: x, c: x, v: 5.0 }
+                }).collect()),
                 // documented field on a coarse grid (exact ties between neighbours, plateaus), other fields free
                 3 => vec((tie_field(), raw_bar(field)), lenr).prop_map(move |v| v.into_iter().map(|(x, mut b)| {
                     b.c = x;
